@@ -269,11 +269,14 @@ myth_tls_key_allocator_alloc(myth_tls_key_allocator_t * s,
 			     myth_tls_destructor_fun_t destructor) {
   while (1) {
     /* try to pull the element from the free list */
+    MYTH_VERIF_POINT(mythv_p_key_load, s->free);
     myth_tls_key_entry_t * ke = s->free;
     if (ke) {
+      MYTH_VERIF_POINT(mythv_p_key_load, ke->next);
       myth_tls_key_entry_t * next = ke->next;
       if (__sync_bool_compare_and_swap(&s->free, ke, next)) {
 	/* mark the key as used */
+	MYTH_VERIF_POINT(mythv_p_key_mark, ke->next);
 	ke->next = (myth_tls_key_entry_t *)-1;
 	ke->destructor = destructor;
 	return ke - s->keys;
@@ -298,7 +301,9 @@ myth_tls_key_allocator_dealloc(myth_tls_key_allocator_t * s, int key) {
   myth_tls_destructor_fun_t f = ke->destructor;
   while (1) {
     /* try to push the cell to the free list */
+    MYTH_VERIF_POINT(mythv_p_key_load, s->free);
     myth_tls_key_entry_t * head = s->free;
+    MYTH_VERIF_POINT(mythv_p_key_mark, ke->next);
     ke->next = head;
     if (__sync_bool_compare_and_swap(&s->free, head, ke)) {
       return f;
